@@ -109,6 +109,10 @@ pub trait Property: Sync {
     fn fixed_part(&self, _tier: Tier) -> Option<CaseOut> {
         None
     }
+    /// a worker process dying (signal, abort, stack overflow) while running a case is itself a violation
+    fn crash_is_violation(&self) -> bool {
+        false
+    }
     /// whether the fixed part enumerates its finite space completely
     fn exhaustive(&self, _tier: Tier) -> bool {
         false
@@ -256,8 +260,10 @@ pub fn write_replay<P: Property>(p: &P, case: &P::Case, f: &Failure, prefix: &st
 fn triage<'a>(known: &KnownFile, prop: &str, fs: &'a [Failure]) -> (Vec<&'a Failure>, Vec<&'a Failure>) {
     let mut un = vec![];
     let mut li = vec![];
+    // development aid: VERIF_NOSTOP=1 counts every failure by signature instead of stopping at the first
+    let nostop = std::env::var("VERIF_NOSTOP").is_ok();
     for f in fs {
-        if known_for(known, prop, &f.sig).is_some() {
+        if nostop || known_for(known, prop, &f.sig).is_some() {
             li.push(f)
         } else {
             un.push(f)
